@@ -504,6 +504,9 @@ func C12Configs(thorough bool) []*world.Config {
 		cc(world.UintCfg(2, urange(1, 4), 1, M, "none")),
 		world.LKeyCfg(2, []uint8{0, 2, 0, 1, 0}, 1, B, "none"),
 		world.StructCfg(2, []uint8{0, 1, 0, 2}, B, "none"),
+		// a flat tree below two height thresholds at once (four layer-0 keys, then a layer-3 key: the insert grows
+		// twice, the delete shrinks twice), keys layered through the marshaler, which can fail in either round
+		world.StructCfg(2, []uint8{0, 0, 0, 0, 3}, M, "none"),
 		world.IntCfg(2, []int{1, 2, 3, 4}, []interface{}{[]int{1}, []int{2, 3}}, []int{}, M, "none"),
 		// height-3 trees (three loads on one descent): seeded starts, the states within one operation of them
 		ChainSeeded(B, 1),
